@@ -133,10 +133,19 @@ var noExSizes = []int{2000, 5000}
 
 const biggerBy = 3097 // 1000 -> 4097 crosses the mini cutoff upwards
 
-func enabled(m model) []op {
+// bigInsert: a signature of 128 sectors (512-byte sectors): with it one
+// signing can use up a whole allocation-table sector's worth of entries, so the
+// table grows by more than its own new sector can describe. Only the
+// fatresidue family (filler lengths through every residue) is given it.
+const bigInsert = 65536
+
+func enabled(m model, family string) []op {
 	var out []op
 	for _, s := range insertSizes {
 		out = append(out, op{"ins-ex", s})
+	}
+	if family == "fatresidue" {
+		out = append(out, op{"ins-ex", bigInsert})
 	}
 	for _, sz := range noExSizes {
 		out = append(out, op{"ins-noex", sz})
@@ -516,7 +525,11 @@ func (w *worker) explore(fc *fileCase) {
 		if len(hist) >= fc.maxDepth || timeUp() {
 			return
 		}
-		for _, o := range enabled(m) {
+		fam := ""
+		if fc.spec != nil {
+			fam = fc.spec.Family
+		}
+		for _, o := range enabled(m, fam) {
 			if replayOps != nil && o != replayOps[len(hist)] {
 				continue
 			}
@@ -829,6 +842,11 @@ func main() {
 	addFam(cfbgen.FamilyStorage())
 	addFam(cfbgen.FamilyNestedSigName())
 	addFam(cfbgen.FamilyFatFull())
+	if thorough {
+		addFam(cfbgen.FamilyFatResidue(100, 290)) // through the 128-, 256- and 384-sector boundaries
+	} else {
+		addFam(cfbgen.FamilyFatResidue(112, 136))
+	}
 	if thorough {
 		addFam(cfbgen.FamilyDifat())
 	}
